@@ -148,3 +148,39 @@ def c14(a):
                        "info in force from it on; a finished iterator must have no change left. Iterators are driven with "
                        "an item bound and a no-progress guard (a non-terminating iterator is a violation, not a hang).",
                        extra=["--right", "1"] + (["--max-bundled", "80"] if a.tier == "quick" else []))
+
+
+@prop("C08")
+def c08(a):
+    c = Check("C08", a.tier, a.seed)
+    workdir("C08")
+    binary = build_harness()
+    drive_and_validate(c, a, binary, "c08", "Trace_Civil.tla")
+    c.rule = ("Events date_add / dt_add (checked_add, checked_sub, saturating_add with spans of any unit mix, both signs, "
+              "magnitudes 1, 2^k, 2^k+-1, limit, limit-1), a month-end clamping grid (every day >= 28 x months -14..14 x "
+              "years 0,+-1,4), dur_add (SignedDuration and std Duration on DateTime, Date and Time incl. i64 extremes), "
+              "time_add (wrapping/checked/saturating, hour thresholds around 2^63 ns) and series items; every result is "
+              "recomputed by CivilArith.tla on day counts and exact BigInt nanoseconds. Non-trivial = class other than "
+              "'plain' (units at their limits, negative, wide, clamping grid, huge durations).")
+    c.assumptions = TRUSTED
+    return c.finish()
+
+
+@prop("C10")
+def c10(a):
+    c = Check("C10", a.tier, a.seed)
+    workdir("C10")
+    binary = build_harness()
+    if not a.replay:
+        c.add_mc(tlc_mc("MC_Round.tla", "MC_Round.cfg", os.path.join(workdir("C10", False), "mc"), workers=8))
+        c.add_mc(tlc_mc("MC_BigInt.tla", "MC_BigInt.cfg", os.path.join(workdir("C10", False), "mc2"), workers=4))
+    drive_and_validate(c, a, binary, "c10", "Trace_Civil.tla")
+    c.rule = ("Engine C: MC_Round.tla shows, for all |x| <= 130, increments 1..13 and the 9 modes, that exactly one multiple "
+              "satisfies the declarative RoundOk, that the transcription of jiff's RoundMode::round computes it, and that "
+              "the BigInt form agrees with the native one. Engine A: round_time / round_dt / round_ts / round_sd / round_off "
+              "events over every legal increment of every unit x 9 modes x values at exact multiples, midpoints and +-1ns "
+              "around both, years <= 0, type limits, negative values, plus illegal increments and units; the expected result "
+              "is the neighbour multiple selected by RoundOk (neighbours located from floor(x/inc) sent by the harness and "
+              "verified by multiplication). Zoned rounding is validated by the C13/C06 zoned driver.")
+    c.assumptions = TRUSTED
+    return c.finish()
